@@ -12,7 +12,7 @@ CONSTANTS
   Tier = "trace"
   Strict = TRUE
 CONSTRAINT Track
-INVARIANTS TypeOK ClockOK LaunchOK NoNan MotorLimit RateIntegratorBound ZIntegratorBound
+INVARIANTS TypeOK ClockOK LaunchOK NoNan Airborne MotorLimit RateIntegratorBound ZIntegratorBound
 INVARIANTS AttitudeSettled YawSettled RateSettled PositionSettled VerdictSound
 PROPERTIES StaysSettled StaysAttSettled
 POSTCONDITION Accepted
